@@ -354,6 +354,7 @@ def c134(ctx):
             # the lookup closure compares with the same id
             finds = [c for c in f.calls(r'Iterator::find$|::find$|::position$|::any$') if c.dest['l'] in reads_locals(f, t.args[0]) or True]
             uses_id = False
+            matched_fields = set()
             for c in finds:
                 if len(c.args) > 1:
                     o = f.origin(c.args[1])
@@ -361,12 +362,34 @@ def c134(ctx):
                         for cap in o[1]['a']:
                             if f.root_local(cap, through_calls=(r'::deref$',)) == idl:
                                 uses_id = True
+                                # ... and it is compared with the entry's id, nothing else: a label is free text
+                                cf = P.fns.get(o[1].get('def'))
+                                if cf is not None:
+                                    for bi_ in cf.reachable():
+                                        for st_ in cf.blocks[bi_]['s']:
+                                            for pl_ in ([st_['rv'].get('pl')] if st_.get('rv') and st_['rv'].get('pl') else []) + [op_place(a_) for a_ in (st_.get('rv') or {}).get('a', [])]:
+                                                for pp in (pl_ or {}).get('p', []):
+                                                    if isinstance(pp, dict) and 'n' in pp and pp.get('o') == 'rip_workspace::Checkpoint':
+                                                        matched_fields.add(pp['n'])
             sw = f.switch_on_call(t)
             if sw is None:
                 continue
             okt = sw[1].get('0')
-            if okt is not None and f.edge_dom(sw[0], okt, s.bb) and uses_id:
+            # comparison closures nested deeper (`.or_else(|| list.iter().rev().find(|e| e.label == id))`)
+            for cf in P.fns.values():
+                if not (cf.path.startswith(f.path + '::{closure') and cf.calls(r'PartialEq(<.*>)?>::(eq|ne)$|::eq$|::ne$')):
+                    continue
+                for bi_ in cf.reachable():
+                    for st_ in cf.blocks[bi_]['s']:
+                        for pl_ in ([st_['rv'].get('pl')] if st_.get('rv') and st_['rv'].get('pl') else []) + [op_place(a_) for a_ in (st_.get('rv') or {}).get('a', [])]:
+                            for pp in (pl_ or {}).get('p', []):
+                                if isinstance(pp, dict) and 'n' in pp and pp.get('o') == 'rip_workspace::Checkpoint':
+                                    matched_fields.add(pp['n'])
+            other = matched_fields - {'id'}
+            if okt is not None and f.edge_dom(sw[0], okt, s.bb) and uses_id and not other:
                 ok = True
+            elif uses_id and other:
+                why = 'the lookup also accepts a match on %s, which is free text, and the caller\'s string — not the found entry\'s id — is what gets joined' % sorted(other)
             elif not uses_id:
                 why = 'the listing is searched, but not for the id that is rewound'
         ctx.ob('C13.4', f, 'rewind-id-from-listing', ok, 'rewind_to_checkpoint(session, id) %s' % ('runs only after `id` was found in list_checkpoints(session)' if ok else 'runs with an UNCHECKED id (%s): the id is joined onto the checkpoint directory as a path segment' % why), line=s.line)
